@@ -22,7 +22,60 @@ def sh(cmd, **kw):
     return subprocess.run(cmd, capture_output=True, text=True, **kw)
 
 
+def recheck_all(only):
+    """Re-runs the checks against every kept seeded change in /verif/seeded, in one
+    temporary worktree of /repo HEAD (removed afterwards); refreshes meta.json."""
+    import tempfile
+    tmp = tempfile.mkdtemp(prefix="verif-seed-")
+    wt = os.path.join(tmp, "wt")
+    sh(["git", "-C", "/repo", "worktree", "add", "--detach", wt, "HEAD"])
+    env = dict(os.environ, PYTHONPATH=os.path.join(wt, "src"))
+    budget = os.environ.get("SEED_BUDGET", "40")
+    try:
+        for name in sorted(os.listdir(os.path.join(HERE, "seeded"))):
+            d = os.path.join(HERE, "seeded", name)
+            if not os.path.isdir(d) or (only and name not in only and name.split("-")[0] not in only):
+                continue
+            with open(os.path.join(d, "meta.json")) as f:
+                meta = json.load(f)
+            prop = meta["property"]
+            sh(["git", "-C", wt, "checkout", "--", "."])
+            clean = sh([PY, os.path.join(d, "demo.py")], env=env, timeout=300, cwd=d)
+            ap = sh(["git", "-C", wt, "apply", os.path.join(d, "patch.diff")])
+            if ap.returncode != 0:
+                print("%s: patch does not apply to HEAD: %s" % (name, ap.stderr[-200:]))
+                continue
+            tests = sh([PY, "-m", "pytest", "-q", "-p", "no:cacheprovider", "tests"], env=env, cwd=wt, timeout=900)
+            sh(["git", "-C", wt, "checkout", "--", "tests"])
+            broken = sh([PY, os.path.join(d, "demo.py")], env=env, timeout=300, cwd=d)
+            t0 = time.time()
+            chk = sh([os.path.join(HERE, "check"), prop, "--budget", budget, "--no-evidence"],
+                     env=dict(os.environ, VERIF_REPO=wt), timeout=1800)
+            dt = time.time() - t0
+            detected = chk.returncode == 1 and ("VIOLATION property=%s" % prop) in chk.stdout
+            vline = [l for l in chk.stdout.splitlines() if l.startswith("violation in run")]
+            mini = [l for l in chk.stdout.splitlines() if l.startswith("minimised")]
+            meta["confirmed"].update({"repo_tests_pass_with_change": tests.returncode == 0,
+                                      "demo_passes_without_change": clean.returncode == 0,
+                                      "demo_fails_with_change": broken.returncode != 0})
+            meta["kept"] = tests.returncode == 0 and clean.returncode == 0 and broken.returncode != 0
+            meta["check"] = {"detected": detected, "exit_code": chk.returncode, "wall_s": round(dt, 1),
+                             "first_violation": vline[0] if vline else None, "minimised": mini[0] if mini else None,
+                             "repo_base": sh(["git", "-C", wt, "rev-parse", "--short", "HEAD"]).stdout.strip()}
+            with open(os.path.join(d, "meta.json"), "w") as f:
+                json.dump(meta, f, indent=1)
+            print("%s confirmed=%s detected=%s rc=%d %.0fs %s" % (name, meta["kept"], detected, chk.returncode, dt,
+                                                               vline[0][:150] if vline else ""))
+            sys.stdout.flush()
+    finally:
+        sh(["git", "-C", "/repo", "worktree", "remove", "--force", wt])
+        shutil.rmtree(tmp, ignore_errors=True)
+        sh(["git", "-C", "/repo", "worktree", "prune"])
+
+
 def main():
+    if sys.argv[1] == "--all":
+        return recheck_all(sys.argv[2:])
     prop = sys.argv[1]
     which = [int(x) for x in sys.argv[2:]] or [1, 2, 3]
     base = "/tmp/seed/%s" % prop
